@@ -151,7 +151,7 @@ def oracle_mean(secs, conn, vals, old):
     return out
 
 
-def corr_extract(ctx):
+def corr_extract(ctx, pool):
     rng = ctx.rng
     n = 40 if ctx.quick else 800
     body, meta = [], []
@@ -162,7 +162,7 @@ def corr_extract(ctx):
         except Exception as e:  # noqa: BLE001
             import traceback
             ctx.broken("correspondence", "extract_branch_results_with_internals harness", traceback.format_exc()[-700:])
-            return
+            return lambda: None
         if cs is None:
             ctx.count("extract_skipped_unsupplied")
             continue
@@ -178,25 +178,32 @@ def corr_extract(ctx):
                               "res_pipe.%s after extraction is %r; every row's own section value gives %r "
                               "(labels %r, sections %r)" % (col, got, exp, info["labels"], info["sections"]),
                               {"kind": "extract", "net": sp, "info": info, "observed": got, "expected": exp})
-    n_tot = n_mis = 0
     size = 80
+    jobs = []
     for s0 in range(0, len(body), size):
         txt = HDR + "Definition cs : list ext_case := [\n%s\n].\nEval vm_compute in (summary ext_case_ok cs).\n" \
             % ";\n".join(body[s0:s0 + size])
-        trip, out = ctx.coq_counts(txt, "ext_%d" % (s0 // size))
-        if not trip:
-            ctx.broken("correspondence", "extract model (coqc failed)", out[-800:])
-            return
-        nn, m, first = trip[0]
-        n_tot += nn
-        n_mis += m
-        if m and not any(b for _, b, _ in meta[s0:s0 + size]):
-            sp, bad, info = meta[s0 + first]
-            ctx.broken("correspondence", "ModelExtract vs extract_branch_results_with_internals",
-                       "model and implementation differ although the implementation satisfies the row-wise property: %r"
-                       % info)
-    ctx.corr("C06.ModelExtract.place_ext / place_last / place_mean == extract_branch_results_with_internals "
-             "(== row-wise property) on real nets with integer branch results", n_tot, n_mis)
+        jobs.append((s0, pool.submit(ctx.coq_counts_gated, txt, "ext_%d" % (s0 // size))))
+
+    def finish():
+        n_tot = n_mis = 0
+        for s0, fut in jobs:
+            trip, out = fut.result()
+            if not trip:
+                ctx.broken("correspondence", "extract model (coqc failed)", out[-800:])
+                return
+            nn, m, first = trip[0]
+            n_tot += nn
+            n_mis += m
+            if m and not any(b for _, b, _ in meta[s0:s0 + size]):
+                sp, bad, info = meta[s0 + first]
+                ctx.broken("correspondence", "ModelExtract vs extract_branch_results_with_internals",
+                           "model and implementation differ although the implementation satisfies the row-wise "
+                           "property: %r" % info)
+        ctx.corr("C06.ModelExtract.place_ext / place_outlet / place_mean == extract_branch_results_with_internals "
+                 "(== row-wise property) on real nets with integer branch results and random flow-direction flags",
+                 n_tot, n_mis)
+    return finish
 
 
 # ------------------------------------------------------------------------------------------ structural pit + relabel
@@ -221,7 +228,7 @@ def pit_case(net):
     return txt, ft
 
 
-def corr_pit_relabel(ctx):
+def corr_pit_relabel(ctx, pool):
     rng = ctx.rng
     n = 24 if ctx.quick else 400
     body = []
@@ -236,7 +243,7 @@ def corr_pit_relabel(ctx):
             t2, ft2 = pit_case(gen.build(sp2))
         except Exception as e:  # noqa: BLE001
             ctx.broken("correspondence", "pit capture", repr(e)[:300])
-            return
+            return lambda: None
         body += [t1, t2]
         ctx.case({"pit_relabel": sp, "maps": {k: list(v.items()) for k, v in maps.items()}},
                  any(a != b for m in maps.values() for a, b in m.items()))
@@ -245,19 +252,25 @@ def corr_pit_relabel(ctx):
                           "FROM_NODE / TO_NODE of the pipe pit change under an injective relabelling",
                           {"kind": "relabel", "net": sp, "net_b": sp2, "options": {"use_numba": False},
                            "maps": {t: [[k, v] for k, v in m.items()] for t, m in maps.items()}})
-    n_tot = n_mis = 0
     size = 100
+    jobs = []
     for s0 in range(0, len(body), size):
         txt = HDR + "Definition cs : list pit_case := [\n%s\n].\nEval vm_compute in (summary pit_case_ok cs).\n" \
             % ";\n".join(body[s0:s0 + size])
-        trip, out = ctx.coq_counts(txt, "pit_%d" % (s0 // size))
-        if not trip:
-            ctx.broken("correspondence", "pit model (coqc failed)", out[-800:])
-            return
-        nn, m, first = trip[0]
-        n_tot += nn
-        n_mis += m
-        if m:
-            ctx.broken("correspondence", "ModelExtract.pit_of vs the real pipe pit", "case %d differs" % (s0 + first))
-    ctx.corr("C06.ModelExtract.pit_of == ELEMENT_IDX / FROM_NODE / TO_NODE of the real pipe pit, for generated nets "
-             "and their relabelled twins (positions equal across the twins)", n_tot, n_mis)
+        jobs.append((s0, pool.submit(ctx.coq_counts_gated, txt, "pit_%d" % (s0 // size))))
+
+    def finish():
+        n_tot = n_mis = 0
+        for s0, fut in jobs:
+            trip, out = fut.result()
+            if not trip:
+                ctx.broken("correspondence", "pit model (coqc failed)", out[-800:])
+                return
+            nn, m, first = trip[0]
+            n_tot += nn
+            n_mis += m
+            if m:
+                ctx.broken("correspondence", "ModelExtract.pit_of vs the real pipe pit", "case %d differs" % (s0 + first))
+        ctx.corr("C06.ModelExtract.pit_of == ELEMENT_IDX / FROM_NODE / TO_NODE of the real pipe pit, for generated "
+                 "nets and their relabelled twins (positions equal across the twins)", n_tot, n_mis)
+    return finish
